@@ -52,6 +52,26 @@ Proof.
   specialize (H c Hc'). unfold column_inverse_ok in H. now apply Z.eqb_eq in H.
 Qed.
 
+(* the unclamped quotient of a position written for column c is c as well, hence below the key
+   count; the clamp in `column` is not what keeps converted notes inside the stage *)
+Definition column_raw_ok (k c : Z) : bool := column_raw (column_to_pos c k) (of_Z k) =? c.
+Lemma column_raw_all :
+  forallb (fun k => forallb (column_raw_ok k) (upto (Z.to_nat k))) (map (fun k => k + 1) (upto 10)) = true.
+Proof. vm_compute. reflexivity. Qed.
+Theorem column_raw_inverse k c : 1 <= k <= 10 -> 0 <= c < k -> column_raw (column_to_pos c k) (of_Z k) = c.
+Proof.
+  intros Hk Hc. pose proof column_raw_all as H. rewrite forallb_forall in H.
+  assert (Hin : In k (map (fun k => k + 1) (upto 10))).
+  { apply in_map_iff. exists (k - 1). split; [lia|]. apply upto_in. lia. }
+  specialize (H k Hin). rewrite forallb_forall in H.
+  assert (Hc' : In c (upto (Z.to_nat k))) by (apply upto_in; lia).
+  specialize (H c Hc'). unfold column_raw_ok in H. now apply Z.eqb_eq in H.
+Qed.
+(* a position written for "column k of k" (x = 512) is outside the stage although `column` reads
+   it as the last column: the check must not rely on the clamped function *)
+Lemma column_clamp_hides_512 : column_raw (column_to_pos 8 8) (of_Z 8) = 8 /\ column (column_to_pos 8 8) (of_Z 8) = 7.
+Proof. vm_compute. split; reflexivity. Qed.
+
 (* the column function never returns a column at or above the key count, for the note positions
    0..512 on the integer grid and every key count 1..18 (the conversion only produces integral x
    positions: ceil() in column_to_pos, positions of the original objects are `as i32 as f32`) *)
